@@ -101,6 +101,8 @@ def labels(ctx, spec):
             ctx.label("explicit_bounds_differ_from_chunk")
     if spec.get("genome"):
         ctx.label("with_sequence")
+    if spec.get("case_variant_keys"):
+        ctx.label("qualifier_keys_differing_in_case_only")
     ctx.label("kind:" + kind)
 
 
@@ -402,6 +404,8 @@ def strat_obj(draw, tier="quick", kinds=("collection", "collection", "collection
         o["start"] = draw(st.integers(w_lo, max(w_lo, lo_m)))
         o["end"] = draw(st.integers(hi, max(hi, w_hi)))
     sp["derive_first"] = draw(st.integers(0, 2)) == 0
+    if S.add_case_variant_key(draw, o):
+        sp["case_variant_keys"] = True
     if draw(st.integers(0, 3)) == 0:
         # identifiers issued by the caller (database keys) rather than digested from the content, on some of the objects
         def issue(d):
